@@ -548,6 +548,16 @@ def build(modules, work_dir, profile, pdlc, target_dir, *, jobs=None, pdlc_timeo
                 # No attributable diagnostic (rustc crash, timeout, error outside the modules):
                 # compile every module alone, as PROTOCOL.md describes.
                 bad = _bisect_alone(work_dir, target_dir, gens, good, profile, check_timeout_s, report)
+            if not bad and not report.get("cleaned_once"):
+                # every module compiles alone: the failure is not in the generated code.  The
+                # usual cause is an incremental-compilation cache left inconsistent by a killed
+                # rustc (undefined symbols at link time): drop this crate's artifacts, once.
+                report["cleaned_once"] = True
+                subprocess.run(["cargo", "clean", "--offline", "-p", "pdl-rust-harness"]
+                               + (["--release"] if profile == "release" else []),
+                               cwd=work_dir, env=_cargo_env(target_dir), stdout=subprocess.DEVNULL,
+                               stderr=subprocess.DEVNULL, timeout=600)
+                continue
             if not bad:
                 _write_report(work_dir, report)
                 raise RuntimeError(
